@@ -90,6 +90,21 @@ pub fn small_padding() -> PaddingParameters {
     }
 }
 
+/// TestWorld configuration of every C01 run. Under the compact step table (`--features compact-gate`)
+/// gates can only be narrowed along the compiled step tree, so the world starts at the root of the
+/// hybrid protocol (`ProtocolStep::Hybrid`, where `Query::execute` puts `hybrid_protocol`); with
+/// descriptive gates the fixture's unique per-run gate is used.
+fn c01_config(secs: u64, seed: u64) -> TestWorldConfig {
+    let mut config = TestWorldConfig::default().with_timeout_secs(secs);
+    config.seed = seed;
+    #[cfg(compact_gate)]
+    {
+        use ipa_step::StepNarrow;
+        config.initial_gate = Some(crate::protocol::Gate::default().narrow(&crate::protocol::step::ProtocolStep::Hybrid));
+    }
+    config
+}
+
 fn err_kind(e: &Error) -> String {
     let d = format!("{e:?}");
     let k: String = d.chars().take_while(|c| c.is_alphanumeric() || *c == '_').collect();
@@ -103,9 +118,7 @@ macro_rules! run_inst {
         // a short limit only where the modelled outcome is "never completes" (finding F8: a shard
         // without rows); everything else gets a limit that a loaded machine cannot reach
         let secs = if $short { 6 } else if !matches!(pad.oprf_padding, OPRFPadding::NoOPRFPadding) { 280 } else { 200 };
-        let mut config = TestWorldConfig::default().with_timeout_secs(secs);
-        config.seed = $seed;
-        let world = TestWorld::<WithShards<$shards, $D>>::with_shards(config);
+        let world = TestWorld::<WithShards<$shards, $D>>::with_shards(c01_config(secs, $seed));
         let inputs = records.into_iter();
         let results: Vec<[Result<Vec<Replicated<$HV>>, Error>; 3]> = if $mal {
             world
@@ -175,9 +188,7 @@ macro_rules! by_shards {
 fn exec_agg(mal: bool, tags: Vec<u64>, records: Vec<TestHybridRecord>, seed: u64) -> String {
     use crate::{protocol::hybrid::agg::aggregate_reports, report::hybrid::{AggregateableHybridReport, PrfHybridReport}};
     let r = block_on_timeout(120, async move {
-        let mut config = TestWorldConfig::default().with_timeout_secs(60);
-        config.seed = seed;
-        let world = TestWorld::<WithShards<1>>::with_shards(config);
+        let world = TestWorld::<WithShards<1>>::with_shards(c01_config(60, seed));
         macro_rules! body {
             () => {
                 |ctx, input: Vec<HybridReport<BA8, BA3>>| {
@@ -232,9 +243,7 @@ fn exec_brk(mal: bool, hv: u32, rows: Vec<(u32, u32)>, seed: u64) -> String {
         test_fixture::hybrid::TestAggregateableHybridReport,
     };
     let r = block_on_timeout(200, async move {
-        let mut config = TestWorldConfig::default().with_timeout_secs(150);
-        config.seed = seed;
-        let world = TestWorld::<WithShards<1>>::with_shards(config);
+        let world = TestWorld::<WithShards<1>>::with_shards(c01_config(150, seed));
         let inputs = rows.into_iter().map(|(bk, v)| TestAggregateableHybridReport { match_key: (), value: v, breakdown_key: bk });
         macro_rules! run {
             ($HV:ty) => {{
@@ -242,6 +251,8 @@ fn exec_brk(mal: bool, hv: u32, rows: Vec<(u32, u32)>, seed: u64) -> String {
                     () => {
                         |ctx, input: Vec<AggregateableHybridReport<BA8, BA3>>| async move {
                             let pad = PaddingParameters::no_padding();
+                            // as in hybrid_protocol: `ctx.narrow(&Step::Aggregate)`
+                            let ctx = crate::protocol::context::Context::narrow(&ctx, &crate::protocol::hybrid::step::HybridStep::Aggregate);
                             match breakdown_reveal_aggregation::<_, BA8, BA3, $HV, 256>(ctx, input, &pad).await {
                                 Ok(r) => Ok(Vec::<Replicated<$HV>>::transposed_from(&r).unwrap()),
                                 Err(e) => Err(e),
